@@ -67,6 +67,8 @@ def scratch_dir():
     global _SCRATCH
     if _SCRATCH is None or _SCRATCH[0] != os.getpid():
         base = os.environ.get("VERIF_SCRATCH")
+        if _PARENT_SCRATCH is not None and os.path.isdir(_PARENT_SCRATCH):
+            base = _PARENT_SCRATCH
         if base is None:
             base = "/dev/shm" if os.path.isdir("/dev/shm") else tempfile.gettempdir()
         d = tempfile.mkdtemp(prefix="auditok.verif-", dir=base)
@@ -84,8 +86,15 @@ def _rm_scratch(pid, d):
 # process pool
 
 
+_PARENT_SCRATCH = None
+
+
 def _pool_init():
-    global _SCRATCH
+    # a pool worker makes its scratch directory inside its parent's, which the parent removes at exit
+    # (pool workers are terminated, their own atexit handlers never run)
+    global _SCRATCH, _PARENT_SCRATCH
+    if _SCRATCH is not None:
+        _PARENT_SCRATCH = _SCRATCH[1]
     _SCRATCH = None
 
 
@@ -165,6 +174,7 @@ def pmap(func, tasks, procs=None, chunksize=1, guard=True):
         for t in tasks:
             yield func(t)
         return
+    scratch_dir()
     ctx = multiprocessing.get_context("fork")
     with ctx.Pool(min(procs, len(tasks)), initializer=_pool_init) as pool:
         for r in pool.imap_unordered(func, tasks, chunksize):
